@@ -123,6 +123,13 @@ def bdd_histories(pid, tier, seed):
             cfg = rng.choice(["12 4 3", "13 6 6", "default 13", "14 8 2", "default 16"])
             extra = 0
         g = BddGen(rng, nvars, cfg, weights=_q(FOCUS[pid]), malformed=0.02 if i % 5 else 0.15, maxvar_extra=extra)
+        if i % 20 == 13:
+            # "long-gc" family: one collection of the history is repeated 2^8 or 2^16 times (+-1); small tables only (every
+            # collection sweeps all buckets and clears the caches, in the crate and in the model)
+            family = "tiny+longgc"
+            cfg = "%d %d %d" % (rng.choice([4, 5, 6]), rng.choice([0, 1, 2]), rng.choice([0, 1, 2]))
+            g = BddGen(rng, nvars, cfg, weights=_q(FOCUS[pid]), malformed=0.02, maxvar_extra=extra)
+            g.gc_repeat = rng.choice([255, 256, 257, 65535, 65536, 65536, 65537])
         if family == "deep":
             for _ in range(4):
                 g.op_randfun()
@@ -131,6 +138,101 @@ def bdd_histories(pid, tier, seed):
         ops = b["ops"] if tiny else b["ops"] * 2
         lines = g.run(ops)
         yield ("gen-%s-%d" % (pid, i), lines, {"seed": hseed, "nvars": nvars, "cfg": cfg, "family": family, "stats": dict(g.stats), "classes": dict(g.classes)})
+
+
+SCALE_OPS = {
+    "C01": ["and", "xor", "ite", "not"], "C02": ["ite", "ite", "ite"], "C03": ["and", "or", "xor", "eq", "imply", "andmany"],
+    "C04": ["size", "and", "size"], "C05": ["gc", "and", "gc"], "C06": ["gc", "var", "gc"], "C07": ["ite", "gc", "ite", "size"],
+    "C08": ["subst", "substm", "cofcube", "high", "low"], "C09": ["compose"], "C10": ["constrain"], "C11": ["restrict"],
+    "C12": ["itec", "implies"], "C13": ["satcount"], "C14": ["onesat", "paths"], "C15": ["var", "node", "cube", "clause"],
+    "C16": ["bracket", "dot", "size", "desc"], "C17": ["var", "gc", "var", "and"],
+}
+
+
+def scale_histories(pid, tier, seed):
+    """Histories at a scale the extracted model cannot follow in reasonable time (its register file is a list): tens of
+    thousands of nodes, handle numbers beyond 2^15 / 2^16, a hole followed by thousands of occupied cells.  They run on the
+    crate only, with every oracle switched on, in the release AND the debug build (arithmetic overflow checks)."""
+    rng = random.Random((seed * 7919) ^ hash_pid(pid) ^ 0x5CA1E)
+    focus = SCALE_OPS.get(pid, ["and", "ite"])
+
+    def ops_on(regs, lines, nreg, k):
+        """k operations of the property's kinds on registers drawn from regs; returns the new register count"""
+        for _ in range(k):
+            op = rng.choice(focus + ["and", "ite"])
+            a = lambda: ("~" if rng.random() < 0.4 else "") + str(rng.choice(regs))
+            if op == "ite":
+                lines.append("ite %s %s %s" % (a(), a(), a())); nreg += 1
+            elif op in ("and", "or", "xor", "eq", "imply", "constrain", "restrict"):
+                lines.append("%s %s %s" % (op, a(), a())); nreg += 1
+            elif op == "not":
+                lines.append("not %s" % a()); nreg += 1
+            elif op == "andmany":
+                lines.append("andmany 3 %s %s %s" % (a(), a(), a())); nreg += 1
+            elif op in ("subst", "compose", "substm", "cofcube", "high", "low", "node", "cube", "clause", "var"):
+                x = rng.choice(regs)
+                v = max(1, x - 1)                      # register x holds variable x-1 in these histories
+                if op == "subst":
+                    lines.append("subst %s %d %d" % (a(), v, rng.randrange(2)))
+                elif op == "compose":
+                    lines.append("compose %s %d %s" % (a(), v, a()))
+                elif op == "substm":
+                    lines.append("substm %s 1 %d %d" % (a(), v, rng.randrange(2)))
+                elif op == "cofcube":
+                    lines.append("cofcube %s 1 %d" % (a(), v if rng.random() < 0.5 else -v))
+                elif op in ("high", "low"):
+                    lines.append("%s %s" % (op, a()))
+                elif op == "node":
+                    lines.append("node 1 %s %s" % (rng.choice(regs), rng.choice(regs)))
+                elif op in ("cube", "clause"):
+                    vs = sorted(rng.sample(range(1, 60000), 3))
+                    lines.append("%s 3 %s" % (op, " ".join(str(w if rng.random() < 0.5 else -w) for w in vs)))
+                else:
+                    lines.append("var %d" % rng.randrange(70000, 90000))
+                nreg += 1
+            elif op in ("size", "onesat", "paths", "bracket"):
+                lines.append("%s %s" % (op, a()))
+            elif op == "itec":
+                lines.append("itec %s %s %s" % (a(), a(), a()))
+            elif op == "implies":
+                lines.append("implies %s %s" % (a(), a()))
+            elif op == "satcount":
+                lines.append("satcount %s %d" % (a(), rng.choice([70000, 100000])))
+            elif op in ("desc", "dot"):
+                lines.append("%s 2 %s %s" % (op, a(), a()))
+            elif op == "gc":
+                rs = sorted(set(rng.sample(regs, min(len(regs), 4))))
+                lines.append("gc %d %s" % (len(rs), " ".join(map(str, rs))))
+                regs[:] = rs
+            if lines[-1].split()[0] not in ("size", "onesat", "paths", "bracket", "itec", "implies", "satcount", "desc", "dot", "gc"):
+                regs.append(nreg - 1)
+        return nreg
+
+    # (1) handle numbers beyond 2^15: N variables (one node each, register v+1 holds variable v), then operations whose
+    #     arguments are the most recent ones (nodes with child references >= 2^16)
+    for N in ([33000 + rng.randrange(50)] if tier == "quick" else [33000 + rng.randrange(50), 40000, 66000]):
+        lines = ["cfg 18 12 10", "nvars 1", "const 1", "const 0"] + ["var %d" % v for v in range(1, N + 1)]
+        regs = list(range(N - 30, N + 2))
+        nreg = ops_on(regs, lines, N + 2, 40)
+        yield ("scale-bigidx-%d" % N, lines, {"kind": "scale", "family": "scale", "classes": {"scale:handles>=2^15": 1}, "timeout": 60})
+    # (2) a collection exactly when the high-water mark is 2^16 or a multiple of 64 just above it, the top cell alive
+    for top in (65536, 65600):
+        N = top - 1
+        lines = ["cfg 18 12 10", "nvars 1", "const 1", "const 0"] + ["var %d" % v for v in range(1, N + 1)]
+        lines.append("gc 3 %d %d %d" % (N + 1, N, 7))
+        regs = [N + 1, N, 7]
+        nreg = ops_on(regs, lines, N + 2, 25)
+        yield ("scale-gc-at-%d" % top, lines, {"kind": "scale", "family": "scale", "classes": {"scale:gc-at-2^16": 1}, "timeout": 60})
+    # (3) one hole followed by thousands of occupied cells, then new nodes
+    for M in (4500, 9000):
+        hole = rng.randrange(3, 40)
+        lines = ["cfg 15 8 8", "nvars 1", "const 1", "const 0"] + ["var %d" % v for v in range(1, M + 1)]
+        roots = [k for k in range(2, M + 2) if k != hole]
+        lines.append("gc %d %s" % (len(roots), " ".join(map(str, roots))))
+        lines += ["var %d" % (M + 10), "var %d" % (M + 11), "var %d" % (M + 12)]
+        regs = [M + 2, M + 3, M + 4, M + 1, M, 3 if hole != 3 else 4]
+        nreg = ops_on(regs, lines, M + 5, 25)
+        yield ("scale-hole-%d" % M, lines, {"kind": "scale", "family": "scale", "classes": {"scale:hole-then-run": 1}, "timeout": 60})
 
 
 def hash_pid(pid):
